@@ -363,6 +363,22 @@ func TestDriveC19(t *testing.T) {
 		{"closesStdoutThenSleeps", mk("closesleep.sh", "#!/bin/sh\necho 1\nexec >&- 2>&-\nsleep 30\n", 0755)},
 		{"readsStdin", mk("stdin.sh", "#!/bin/sh\nread x\necho 4${x}2\n", 0755)},
 		{"exit255", mk("exit255.sh", "#!/bin/sh\nexit 255\n", 0755)},
+		// paths that cannot even be examined
+		{"symlinkLoop", func() string {
+			a, b := filepath.Join(dir, "loop-a"), filepath.Join(dir, "loop-b")
+			_ = os.Symlink(a, b)
+			_ = os.Symlink(b, a)
+			return a
+		}()},
+		{"danglingSymlink", func() string {
+			l := filepath.Join(dir, "dangling")
+			_ = os.Symlink(filepath.Join(dir, "nowhere"), l)
+			return l
+		}()},
+		{"parentIsFile", filepath.Join(mk("plainfile", "x\n", 0644), "tool.sh")},
+		{"nameTooLong", filepath.Join(dir, strings.Repeat("n", 300))},
+		{"directory", dir},
+		{"emptyName", ""},
 	}
 	timeouts := []int{200, 500, 1000, 2000}
 	idx := 0
@@ -395,6 +411,28 @@ func TestDriveC19(t *testing.T) {
 				rec.Emit(Ev{"ev": "Call", "mode": m.name, "timeout": to, "dur": int(dur / time.Millisecond), "outcome": outcome,
 					"outlen": len(o), "trimmed": trimmed, "sample": sampleStr(o)})
 			}
+		}
+	}
+	// concurrency: sensor monitors, RPM monitors and control loops call the helper from their own goroutines; 16 of them in a
+	// child process, 12 on commands that run into their deadline at the same moments. The child must end by itself, status 0.
+	if shard == 1%shards {
+		for rep := 0; rep < 3+reps; rep++ {
+			var outb bytes.Buffer
+			t0 := time.Now()
+			cmd := StartChild("c19conc", []string{modes[0].path, modes[9].path}, filepath.Join(dir, "nohwmon"), filepath.Join(dir, "conc.trace"), &outb)
+			code, _, timedOut := waitExit(cmd, 30*time.Second)
+			outcome := "ok"
+			if timedOut {
+				outcome = "hung"
+			} else if code != 0 || !strings.Contains(outb.String(), "c19conc done") {
+				outcome = "panic"
+			}
+			dur := int(time.Since(t0) / time.Millisecond)
+			if outcome == "ok" && dur > 9000 {
+				dur = 9000 // (start-up and scheduling of a loaded machine: the bound of interest is "ends by itself")
+			}
+			rec.Emit(Ev{"ev": "Call", "mode": "concurrent", "timeout": 8000, "dur": dur, "outcome": outcome,
+				"outlen": 0, "trimmed": true, "sample": tailStr(outb.String(), 300)})
 		}
 	}
 	// the wrappers: cmd sensor / cmd fan use a fixed 2 s timeout. Every object is used for a SEQUENCE of calls
